@@ -184,7 +184,9 @@ class Scenario:
                         violations.append((
                             "%s:wrong-cause" % label,
                             "accept() raised RuntimeError but its cause %r does not lead to "
-                            "what left the payload (%r)" % (exc.__cause__, self.kit.left)))
+                            "what left the payload (%s)" % (
+                                exc.__cause__, {k: (v[0], type(v[1]).__name__)
+                                                for k, v in self.kit.left.items()})))
         outcome = (self.outcome[0], type(self.outcome[1]).__name__) if self.outcome else None
         return {"violations": violations, "outcome": repr(outcome)}
 
@@ -223,9 +225,10 @@ def scenario_params(tier):
             out.append({"failing": (flavour, how, when, reg), "bystanders": bystanders})
     # 2a. coroutine flavours: the callable fails when it is called (no awaitable ever exists)
     for flavour, how, reg in itertools.product(
-            ["asyncio", "trio"], [("raise", "LookupError"), ("raise", "TypeError")],
+            ["asyncio", "trio"],
+            [("raise", "LookupError"), ("raise", "TypeError"), ("raise", "StopIteration")],
             REGISTRATIONS):
-        if tier == "quick" and how[1] == "TypeError" and reg not in ("queued", "outside"):
+        if tier == "quick" and how[1] != "LookupError" and reg not in ("queued", "outside"):
             continue
         out.append({"failing": (flavour, how, "at-call", reg), "bystanders": "none"})
     # 2b. a bystander that absorbs its first cancellation
